@@ -19,8 +19,8 @@ LEVEL = "proof"
 INCLUDE = ['w4s_c10', 'w4s_c10c']   # wave 4 (lead, integration): generated skeletons of hosvd mode loop / tucker_als main loop: bridge theorems + replay streams
 GEN_UNITS = ["GenHosvd", "GenTuckerAls"]      # control-flow skeletons (tools/pyx2v_skel.py) of hosvd's mode loop (Props/C10Gen.v is stated over it) and of the main part of tucker_als (Props/C10W5.v)
 SHARD = 6
-COQ_TARGETS = ["Props/C10.vo", "Props/C10Loop.vo", "Props/C10W3b.vo", "Props/C10W4.vo", "Props/C10Gen.vo", "Props/C10W5.vo", "Props/C10W5k.vo", "Proofs/W4SHosvd.vo", "Proofs/W4SHosvdR.vo", "Proofs/W4STucker.vo", "Model/C10Check.vo", "Model/C10KernelCheck.vo", "Proofs/C10Kernel.vo", "Model/Harness.vo"]
-THEOREM_FILES = ["Props/C10.v", "Props/C10Loop.v", "Props/C10W3b.v", "Props/C10W4.v", "Props/C10Gen.v", "Props/C10W5.v", "Props/C10W5k.v"]
+COQ_TARGETS = ["Props/C10.vo", "Props/C10Loop.vo", "Props/C10W3b.vo", "Props/C10W4.vo", "Props/C10Gen.vo", "Props/C10W5.vo", "Props/C10W5k.vo", "Props/C10W8.vo", "Proofs/W4SHosvd.vo", "Proofs/W4SHosvdR.vo", "Proofs/W4STucker.vo", "Model/C10Check.vo", "Model/C10KernelCheck.vo", "Proofs/C10Kernel.vo", "Model/Harness.vo"]
+THEOREM_FILES = ["Props/C10.v", "Props/C10Loop.v", "Props/C10W3b.v", "Props/C10W4.v", "Props/C10Gen.v", "Props/C10W5.v", "Props/C10W5k.v", "Props/C10W8.v"]
 COQ_IMPORTS = ("From Coq Require Import List ZArith Bool QArith Qcanon.\n"
                "From PV Require Import Base.Index Np.Array Model.Sparse Model.Repr Model.Harness Model.C10Tucker Model.C10Check Model.C10KernelCheck.\n")
 RULE = ("integer tensors <= 4x3x3 (1- to 4-way, singleton modes, low-rank + noise, full random, graded spectra with component weights "
